@@ -27,7 +27,7 @@ import types
 REAL = {}
 CUR = threading.local()
 STATE = types.SimpleNamespace(root=None, installed=False, shims=[], files=[], flocks={}, mainctr=itertools.count(),
-                              dirty=set(), outside=None, slists=[], shared_private=set(), priv_owner={}, escapes=[], audit=False, fdpaths={}, vclock=0.0,
+                              dirty=set(), outside=None, slists=[], shared_private=set(), priv_owner={}, escapes=[], audit=False, fdpaths={}, vclock=0.0, frozen_mtime=False,
                               audited=0)
 
 TMP_PREFIXES = ("objects/tmp", "metadata/tmp", "refs/tmp")
@@ -184,6 +184,34 @@ KIND = {
 }
 
 
+class FrozenStat:
+    """Environment answer 'a file system whose timestamps have not ticked': every file carries the execution's virtual time
+    (coarse timestamp granularity - 1 or 2 seconds on many file systems - makes files written in quick succession
+    indistinguishable by mtime).  Everything else is the real stat result."""
+
+    def __init__(self, st):
+        self._st = st
+
+    def __getattr__(self, n):
+        if n in ("st_mtime", "st_ctime", "st_atime"):
+            return VIRTUAL_EPOCH + STATE.vclock
+        if n in ("st_mtime_ns", "st_ctime_ns", "st_atime_ns"):
+            return int((VIRTUAL_EPOCH + STATE.vclock) * 10 ** 9)
+        return getattr(self._st, n)
+
+    def __getitem__(self, i):
+        t = tuple(self._st)
+        if i in (7, 8, 9) or (isinstance(i, int) and i < 0 and len(t) + i in (7, 8, 9)):
+            return int(VIRTUAL_EPOCH + STATE.vclock)
+        return t[i]
+
+    def __iter__(self):
+        return iter([self[i] for i in range(len(tuple(self._st)))])
+
+    def __len__(self):
+        return len(tuple(self._st))
+
+
 def _mk_hook(name, nargs):
     real = REAL["os." + name]
     kind = KIND[name]
@@ -222,6 +250,8 @@ def _mk_hook(name, nargs):
             raise
         if name in ("stat", "lstat"):
             w.obs(op, _stat.S_IFMT(res.st_mode), res.st_size if _stat.S_ISREG(res.st_mode) else 0)
+            if STATE.frozen_mtime:
+                res = FrozenStat(res)
         elif name == "listdir":
             res = sorted(res)
             w.obs(op, tuple(res))
